@@ -40,7 +40,8 @@ def _is_select(t):
   return z3.is_app(t) and t.decl().kind() == z3.Z3_OP_SELECT
 
 
-_SLICES = {}   # term id of a slice -> (base term, lo, hi) with clamped bounds
+_SLICES = {}
+_EXACT_SLICES = {}   # slices whose bounds are known to be in range: id -> (base, lo, hi)   # term id of a slice -> (base term, lo, hi) with clamped bounds
 _KEEP = []     # keeps the slice terms alive so that ids stay unique
 
 
@@ -305,6 +306,16 @@ class Seq(Sort):
     ln = z3.If(hi - lo < 0, z3.IntVal(0), hi - lo)
     r = self.mk(arr, z3.simplify(ln))
     _SLICES[r.get_id()] = (t, z3.simplify(lo), z3.simplify(hi))
+    _KEEP.append(r)
+    return r
+
+  def slice_exact(self, t, lo, hi):
+    """t[lo:hi] when 0 <= lo <= hi <= len(t) is known: no clamping terms."""
+    p = z3.FreshConst(z3.IntSort(), 'p')
+    arr = z3.Lambda([p], z3.Select(self.arr(t), p + lo))
+    r = self.mk(arr, z3.simplify(hi - lo))
+    _SLICES[r.get_id()] = (t, z3.simplify(lo), z3.simplify(hi))
+    _EXACT_SLICES[r.get_id()] = (t, lo, hi)
     _KEEP.append(r)
     return r
 
